@@ -1109,7 +1109,11 @@ def r01_13(ctx, crates=("sonic_rs", "sonic_number"), floor=40):
         sites = [(f, o) for f, obs in cands for o in obs if o["kind"] == kind and re.search(rx, o["desc"])]
         key = f"must-prove:{fname}:{kind}:{rx}"
         if not sites:
-            ctx.ob("R01.13", key, False, cands[0][0].loc() if cands else "", f"anchor not found: no {kind} obligation matching {rx} in {fname} ({why})")
+            # the operation itself is gone (e.g. a countdown rewritten as a range iterator): nothing left to discharge.  A
+            # function that disappeared altogether is still reported: the audited table has to follow a rename
+            exists = [f2 for f2 in prog.fns.values() if f2.crate in crates and norm_path(f2.id).endswith(fname)]
+            ctx.ob("R01.13", key, bool(exists), exists[0].loc() if exists else "",
+                   f"no {kind} obligation matching {rx} is left in {fname}: nothing to discharge" if exists else f"anchor not found: function {fname} of the audited table does not exist any more ({why})", nontrivial=False)
             continue
         good = [(f, o) for f, o in sites if o["verdict"] == "proved"]
         # a site the intervals cannot decide, but which is control-dependent on a test of the same values: a guard
